@@ -242,10 +242,14 @@ def run_op(s, backend, op):
     np.random.seed(op["seed"])
     ret, msg = None, ""
     kw = {} if backend is None else {"backend": backend}
+    # "a run that does not ask to continue": the flag is either passed as False or — every other such call — simply
+    # left out (the documented default)
+    if op["cont"] or (op["seed"] % 2 == 0):
+        kw["continue_from_backend"] = bool(op["cont"])
     try:
         with quiet():
             ret = s.mcmc_emcee(op["nw"], op["nburn"], op["nrun"], vec2kwargs(s, op["mean"]),
-                               vec2kwargs(s, op["sigma"]), continue_from_backend=bool(op["cont"]), **kw)
+                               vec2kwargs(s, op["sigma"]), **kw)
         outcome = "ok"
     except Boom:
         outcome = "stopped"
